@@ -4,3 +4,662 @@ From Verif.Base Require Import Bytes BytesProofs.
 From Verif.Codec Require Import Packets Decode Encode RefParse.
 From Verif.Checkers Require Import ChkCodec.
 Open Scope N_scope.
+Ltac Zify.zify_post_hook ::= Z.div_mod_to_equations.
+
+(* ------------------------------------------------------------------ short topics *)
+
+Lemma short_topic_enc_dec : forall i : N, i < 65536 -> encode_short (decode_short i) = i.
+Proof. intros i Hi. unfold decode_short, encode_short. lia. Qed.
+
+Lemma short_topic_dec_enc : forall a b : N, a < 256 -> b < 256 -> decode_short (encode_short [a; b]) = [a; b].
+Proof.
+  intros a b Ha Hb. unfold decode_short, encode_short.
+  f_equal; [|f_equal]; lia.
+Qed.
+
+Lemma short_topic_shape : forall i : N, i < 65536 -> wf_bytes (decode_short i) /\ is_short_topic (decode_short i) = true.
+Proof.
+  intros i Hi. split; [|reflexivity].
+  unfold decode_short, wf_bytes. repeat constructor; apply is_byte_lt; lia.
+Qed.
+
+(* ------------------------------------------------------------------ packet equality *)
+
+Lemma beql_refl (a : list bytes) : beql a a = true.
+Proof. induction a as [|x a IH]; cbn [beql]; [reflexivity|]. rewrite beq_refl, IH. reflexivity. Qed.
+
+Lemma beql_true (a b : list bytes) : beql a b = true -> a = b.
+Proof.
+  revert b. induction a as [|x a IH]; intros [|y b]; cbn [beql]; try discriminate; [reflexivity|].
+  intros H. apply andb_true_iff in H. destruct H as [Hxy Hab].
+  apply beq_true in Hxy. subst y. f_equal. apply IH, Hab.
+Qed.
+
+Lemma pkt_eqb_refl : forall p : packet, pkt_eqb p p = true.
+Proof.
+  intros p. unfold pkt_eqb. destruct (pfields p) as [[t n] b].
+  rewrite N.eqb_refl, beq_refl, beql_refl. reflexivity.
+Qed.
+
+Lemma pkt_eqb_pfields (p q : packet) : pkt_eqb p q = true -> pfields p = pfields q.
+Proof.
+  unfold pkt_eqb. destruct (pfields p) as [[t1 n1] b1]. destruct (pfields q) as [[t2 n2] b2].
+  intros H. apply andb_true_iff in H. destruct H as [H Hb].
+  apply andb_true_iff in H. destruct H as [Ht Hn].
+  apply N.eqb_eq in Ht. apply beq_true in Hn. apply beql_true in Hb.
+  subst. reflexivity.
+Qed.
+
+Lemma N_of_bool_inj (a b : bool) : N_of_bool a = N_of_bool b -> a = b.
+Proof. destruct a, b; cbn [N_of_bool]; intros H; try reflexivity; discriminate H. Qed.
+
+Lemma pfields_inj (p q : packet) : pfields p = pfields q -> p = q.
+Proof.
+  destruct p, q; cbn [pfields]; intros H; try discriminate H; try reflexivity;
+    injection H; intros; subst;
+    repeat match goal with
+           | Hb : N_of_bool _ = N_of_bool _ |- _ => apply N_of_bool_inj in Hb
+           end; subst; reflexivity.
+Qed.
+
+(* holds without the well-formedness hypothesis *)
+Lemma pkt_eqb_true (p q : packet) : pkt_eqb p q = true -> p = q.
+Proof. intros H. apply pfields_inj, pkt_eqb_pfields, H. Qed.
+
+Lemma pkt_eqb_eq : forall p q : packet, wf_pkt p = true -> pkt_eqb p q = true -> p = q.
+Proof. intros p q _ H. apply pkt_eqb_true, H. Qed.
+
+(* ------------------------------------------------------------------ generic facts *)
+
+Lemma okb_spec (b : bytes) : okb b = true -> wf_bytes b /\ len b <= 7168.
+Proof.
+  unfold okb, MaxPayloadLength. intros H. apply andb_true_iff in H. destruct H as [Hw Hl].
+  apply wf_bytesb_spec in Hw. apply N.leb_le in Hl. split; assumption.
+Qed.
+
+Lemma okb1_spec (b : bytes) : okb1 b = true -> wf_bytes b /\ len b <= 7168 /\ 0 < len b.
+Proof.
+  unfold okb1. intros H. apply andb_true_iff in H. destruct H as [Ho Hp].
+  apply okb_spec in Ho. destruct Ho as [Hw Hl]. apply N.ltb_lt in Hp. repeat split; assumption.
+Qed.
+
+Lemma lt8_spec (x : N) : lt8 x = true -> x < 256.
+Proof. unfold lt8. apply N.ltb_lt. Qed.
+
+Lemma lt16_spec (x : N) : lt16 x = true -> x < 65536.
+Proof. unfold lt16. apply N.ltb_lt. Qed.
+
+Lemma wf_bytes_app (a b : bytes) : wf_bytes a -> wf_bytes b -> wf_bytes (a ++ b).
+Proof. unfold wf_bytes. intros Ha Hb. apply Forall_app. split; assumption. Qed.
+
+Lemma wf_bytes_cons (x : N) (b : bytes) : x < 256 -> wf_bytes b -> wf_bytes (x :: b).
+Proof. unfold wf_bytes. intros Hx Hb. constructor; [apply is_byte_lt, Hx|exact Hb]. Qed.
+
+Lemma wf_bytes_nil : wf_bytes [].
+Proof. constructor. Qed.
+
+Lemma enc16w_wf (x : N) : wf_bytes (enc16w x).
+Proof. unfold enc16w. apply wf_bytes_cons; [lia|]. apply wf_bytes_cons; [lia|]. apply wf_bytes_nil. Qed.
+
+Lemma len_enc16w (x : N) : len (enc16w x) = 2.
+Proof. reflexivity. Qed.
+
+Lemma len_pos_cons {A} (l : list A) : 0 < len l -> exists x l', l = x :: l'.
+Proof. destruct l as [|x l']; [unfold len; cbn [length]; lia|]. intros _. exists x, l'. reflexivity. Qed.
+
+Lemma len_zero_nil {A} (l : list A) : len l = 0 -> l = [].
+Proof. destruct l as [|x l']; [reflexivity|]. rewrite len_cons. lia. Qed.
+
+(* the datagram is not cut by the read buffer *)
+Lemma firstn_max (l : bytes) : len l <= MaxPacketLen -> firstn (N.to_nat MaxPacketLen) l = l.
+Proof. intros H. apply firstn_all2. unfold len in H. lia. Qed.
+
+(* ------------------------------------------------------------------ header *)
+
+Lemma hdr_short (vl t : N) : vl + 2 <= 255 -> t < 256 -> hdr vl t = [vl + 2; t].
+Proof.
+  intros Hv Ht. unfold hdr, pkt_length, pack_header.
+  assert (E0 : u16 vl = vl) by (unfold u16; apply N.mod_small; lia).
+  rewrite E0.
+  assert (E1 : u16 (vl + 2) = vl + 2) by (unfold u16; apply N.mod_small; lia).
+  rewrite E1.
+  destruct (N.leb_spec (vl + 2) 255) as [_|Hc]; [|lia].
+  destruct (N.ltb_spec 255 (vl + 2)) as [Hc|_]; [lia|].
+  cbn [app]. unfold u8. f_equal; [|f_equal]; apply N.mod_small; lia.
+Qed.
+
+Lemma hdr_long (vl t : N) : 255 < vl + 2 -> vl + 4 < 65536 -> t < 256 ->
+  hdr vl t = [1; (vl + 4) / 256; (vl + 4) mod 256; t].
+Proof.
+  intros Hv Hm Ht. unfold hdr, pkt_length, pack_header.
+  assert (E0 : u16 vl = vl) by (unfold u16; apply N.mod_small; lia).
+  rewrite E0.
+  assert (E1 : u16 (vl + 2) = vl + 2) by (unfold u16; apply N.mod_small; lia).
+  rewrite E1.
+  assert (E2 : u16 (vl + 4) = vl + 4) by (unfold u16; apply N.mod_small; lia).
+  rewrite E2.
+  destruct (N.leb_spec (vl + 2) 255) as [Hc|_]; [lia|].
+  destruct (N.ltb_spec 255 (vl + 4)) as [_|Hc]; [|lia].
+  unfold enc16w, u8. cbn [app]. f_equal. f_equal; [|f_equal; f_equal]; apply N.mod_small; lia.
+Qed.
+
+Lemma read_packet_short (b0 t : N) (body : bytes) :
+  b0 <> 1 -> known_type t = true -> read_packet (b0 :: t :: body) = unpack_body t body.
+Proof.
+  intros Hb Hk. unfold read_packet, header_unpack, encoded_header_length.
+  apply N.eqb_neq in Hb. rewrite Hb.
+  cbn [length Nat.ltb Nat.leb idx nth_error obind]. rewrite Hb.
+  cbn [obind h_type]. rewrite Hk. cbn [negb].
+  unfold slice_from. cbn [length Nat.leb skipn obind]. reflexivity.
+Qed.
+
+Lemma read_packet_long (hi lo t : N) (body : bytes) :
+  known_type t = true -> read_packet (1 :: hi :: lo :: t :: body) = unpack_body t body.
+Proof.
+  intros Hk. unfold read_packet, header_unpack, encoded_header_length, get16.
+  cbn [length Nat.ltb Nat.leb idx nth_error obind N.eqb Pos.eqb h_type].
+  rewrite Hk. cbn [negb].
+  unfold slice_from. cbn [length Nat.leb skipn obind]. reflexivity.
+Qed.
+
+(* facts about a datagram made of a header announcing its body *)
+Section Framed.
+  Variables (t : N) (body : bytes).
+  Hypothesis Ht : t < 256.
+  Hypothesis Hlen : len body <= 7500.
+
+  Let dg := hdr (len body) t ++ body.
+
+  Lemma framed_read : known_type t = true -> read_dgram dg = unpack_body t body.
+  Proof.
+    intros Hk. unfold read_dgram.
+    rewrite firstn_max.
+    - subst dg. destruct (N.le_gt_cases (len body + 2) 255) as [Hs|Hl].
+      + rewrite hdr_short by assumption. cbn [app]. apply read_packet_short; [lia|exact Hk].
+      + rewrite hdr_long by lia. cbn [app]. apply read_packet_long. exact Hk.
+    - subst dg. unfold MaxPacketLen. destruct (N.le_gt_cases (len body + 2) 255) as [Hs|Hl].
+      + rewrite hdr_short by assumption. cbn [app]. rewrite !len_cons. lia.
+      + rewrite hdr_long by lia. cbn [app]. rewrite !len_cons. lia.
+  Qed.
+
+  Lemma framed_len : len dg = if len body + 2 <=? 255 then len body + 2 else len body + 4.
+  Proof.
+    subst dg. destruct (N.leb_spec (len body + 2) 255) as [Hs|Hl].
+    - rewrite hdr_short by assumption. cbn [app]. rewrite !len_cons. lia.
+    - rewrite hdr_long by lia. cbn [app]. rewrite !len_cons. lia.
+  Qed.
+
+  Lemma framed_size : len dg <= MaxPacketLen.
+  Proof.
+    rewrite framed_len. unfold MaxPacketLen.
+    destruct (N.leb_spec (len body + 2) 255) as [Hs|Hl]; lia.
+  Qed.
+
+  Lemma framed_announced : announced_len dg = Some (len dg).
+  Proof.
+    rewrite framed_len. subst dg. destruct (N.leb_spec (len body + 2) 255) as [Hs|Hl].
+    - rewrite hdr_short by assumption. cbn [app]. unfold announced_len.
+      assert (E : (len body + 2 =? 1) = false) by (apply N.eqb_neq; lia).
+      rewrite E. destruct body as [|x l]; reflexivity.
+    - rewrite hdr_long by lia. cbn [app]. unfold announced_len.
+      rewrite N.eqb_refl. f_equal. lia.
+  Qed.
+
+  Lemma framed_short_form : short_form dg = (len dg <=? 255).
+  Proof.
+    rewrite framed_len. subst dg. destruct (N.leb_spec (len body + 2) 255) as [Hs|Hl].
+    - rewrite hdr_short by assumption. cbn [app]. unfold short_form.
+      assert (E : (len body + 2 =? 1) = false) by (apply N.eqb_neq; lia).
+      rewrite E. cbn [negb]. symmetry. apply N.leb_le. exact Hs.
+    - rewrite hdr_long by lia. cbn [app]. unfold short_form.
+      rewrite N.eqb_refl. cbn [negb]. symmetry. apply N.leb_gt. lia.
+  Qed.
+
+  Lemma framed_wf : wf_bytes body -> wf_bytes dg.
+  Proof.
+    intros Hb. subst dg. apply wf_bytes_app; [|exact Hb].
+    destruct (N.le_gt_cases (len body + 2) 255) as [Hs|Hl].
+    - rewrite hdr_short by assumption. repeat (apply wf_bytes_cons; [lia|]). apply wf_bytes_nil.
+    - rewrite hdr_long by lia. repeat (apply wf_bytes_cons; [lia|]). apply wf_bytes_nil.
+  Qed.
+End Framed.
+
+(* ------------------------------------------------------------------ packet bodies *)
+
+Definition tail_sub (tit ti : N) (nm : bytes) : bytes :=
+  if tit =? TIT_STRING then nm
+  else if (tit =? TIT_PREDEFINED) || (tit =? TIT_SHORT) then enc16w ti else [].
+
+(* the variable part Pack writes after the header, for a well-formed packet *)
+Definition pbody (p : packet) : bytes :=
+  match p with
+  | Advertise g d => [u8 g] ++ enc16w d
+  | SearchGw r => [u8 r]
+  | GwInfo g a => [u8 g] ++ a
+  | Auth r m d => [u8 r; u8 (len m)] ++ m ++ d
+  | Connect w c pr d cid => [bN w 8 + bN c 4; u8 pr] ++ enc16w d ++ cid
+  | Connack rc => [u8 rc]
+  | WillTopicReq => []
+  | WillTopic q r t => match t with [] => [] | _ => [qos_bits q + bN r 16] ++ t end
+  | WillMsgReq => []
+  | WillMsg m => m
+  | Register ti mi nm => enc16w ti ++ enc16w mi ++ nm
+  | Regack ti mi rc => enc16w ti ++ enc16w mi ++ [u8 rc]
+  | Publish dup q r tit ti mi d => [pub_flags dup q r tit] ++ enc16w ti ++ enc16w mi ++ d
+  | Puback ti mi rc => enc16w ti ++ enc16w mi ++ [u8 rc]
+  | Pubcomp mi => enc16w mi
+  | Pubrec mi => enc16w mi
+  | Pubrel mi => enc16w mi
+  | Subscribe dup q tit mi ti nm =>
+    [bN dup 128 + qos_bits q + tit mod 4] ++ enc16w mi ++ tail_sub tit ti nm
+  | Suback q ti mi rc => [qos_bits q] ++ enc16w ti ++ enc16w mi ++ [u8 rc]
+  | Unsubscribe tit mi ti nm => [tit mod 4] ++ enc16w mi ++ tail_sub tit ti nm
+  | Unsuback mi => enc16w mi
+  | Pingreq cid => cid
+  | Pingresp => []
+  | Disconnect d => if u16 d =? 0 then [] else enc16w d
+  | WillTopicUpd q r t => match t with [] => [] | _ => [qos_bits q + bN r 16] ++ t end
+  | WillTopicResp rc => [u8 rc]
+  | WillMsgUpd m => m
+  | WillMsgResp rc => [u8 rc]
+  end.
+
+(* case analysis on a packet with the field names of Codec/Packets.v *)
+Ltac destruct_pkt p :=
+  destruct p as
+    [gw dur|radius|gw addr|reason method data|will clean proto dur cid|rc| |qos retain topic|
+     |msg|tid mid name|tid mid rc|dup qos retain tit tid mid data|tid mid rc|mid|mid|mid
+     |dup qos tit mid tid name|qos tid mid rc|tit mid tid name|mid|cid| |dur
+     |qos retain topic|rc|msg|rc].
+
+(* break a wf_pkt hypothesis into arithmetic facts *)
+Ltac split_wf :=
+  repeat match goal with
+         | H : _ && _ = true |- _ =>
+           let H1 := fresh H in let H2 := fresh H in
+           apply andb_true_iff in H; destruct H as [H1 H2]
+         | H : lt8 _ = true |- _ => apply lt8_spec in H
+         | H : lt16 _ = true |- _ => apply lt16_spec in H
+         | H : okb1 _ = true |- _ =>
+           let H1 := fresh H in let H2 := fresh H in let H3 := fresh H in
+           apply okb1_spec in H; destruct H as [H1 [H2 H3]]
+         | H : okb _ = true |- _ =>
+           let H1 := fresh H in let H2 := fresh H in
+           apply okb_spec in H; destruct H as [H1 H2]
+         | H : wf_bytesb _ = true |- _ => apply wf_bytesb_spec in H
+         | H : (_ <? _) = true |- _ => apply N.ltb_lt in H
+         | H : (_ <=? _) = true |- _ => apply N.leb_le in H
+         | H : (_ =? _) = true |- _ => apply N.eqb_eq in H
+         | H : negb _ = true |- _ => apply negb_true_iff in H
+         | H : _ || _ = true |- _ => apply orb_true_iff in H
+         end.
+
+Ltac len_norm :=
+  cbn [app];
+  repeat (rewrite len_app || rewrite len_cons || rewrite len_enc16w);
+  change (@len N []) with 0.
+
+Lemma u16_small (x : N) : x < 65536 -> u16 x = x.
+Proof. intros H. unfold u16. apply N.mod_small. exact H. Qed.
+
+Lemma u8_small (x : N) : x < 256 -> u8 x = x.
+Proof. intros H. unfold u8. apply N.mod_small. exact H. Qed.
+
+(* well-formed Subscribe / Unsubscribe topic part *)
+Lemma wf_sub_cases (tit ti : N) (nm : bytes) :
+  (if tit =? 0 then (ti =? 0) && okb1 nm
+   else ((tit =? 1) || (tit =? 2)) && lt16 ti && (len nm =? 0)) = true ->
+  (tit = 0 /\ ti = 0 /\ wf_bytes nm /\ len nm <= 7168 /\ 0 < len nm) \/
+  ((tit = 1 \/ tit = 2) /\ ti < 65536 /\ nm = []).
+Proof.
+  intros H. destruct (N.eqb_spec tit 0) as [E|E].
+  - left. apply andb_true_iff in H. destruct H as [Hti Hnm].
+    apply N.eqb_eq in Hti. apply okb1_spec in Hnm. destruct Hnm as [Hw [Hl Hp]].
+    repeat split; assumption.
+  - right. apply andb_true_iff in H. destruct H as [H Hnm].
+    apply andb_true_iff in H. destruct H as [Htit Hti].
+    apply N.eqb_eq in Hnm. apply len_zero_nil in Hnm. apply lt16_spec in Hti.
+    apply orb_true_iff in Htit.
+    repeat split; try assumption.
+    destruct Htit as [Htit|Htit]; apply N.eqb_eq in Htit; [left|right]; exact Htit.
+Qed.
+
+Lemma varpart_pos (vl : N) : 0 < vl -> vl + 4 < 65536 ->
+  (0 <? u16 (pkt_length vl + 65536 - (if pkt_length vl <=? 255 then 2 else 4))) = true.
+Proof.
+  intros Hp Hm. unfold pkt_length.
+  rewrite (u16_small vl) by lia. rewrite (u16_small (vl + 2)) by lia.
+  rewrite (u16_small (vl + 4)) by lia.
+  apply N.ltb_lt. unfold u16.
+  destruct (N.leb_spec (vl + 2) 255) as [Hs|Hl].
+  - destruct (N.leb_spec (vl + 2) 255) as [_|Hc]; lia.
+  - destruct (N.leb_spec (vl + 4) 255) as [Hc|_]; lia.
+Qed.
+
+Ltac pack_eq_tac :=
+  first [ reflexivity
+        | split_wf; f_equal; f_equal; len_norm; unfold u16; lia ].
+
+Lemma pack_eq (p : packet) : wf_pkt p = true -> pack p = hdr (len (pbody p)) (ptype p) ++ pbody p.
+Proof.
+  intros Hwf. destruct_pkt p; cbn [wf_pkt] in Hwf; cbn [pack pbody ptype].
+  - (* Advertise *) pack_eq_tac.
+  - (* SearchGw *) pack_eq_tac.
+  - (* GwInfo *) pack_eq_tac.
+  - (* Auth *) pack_eq_tac.
+  - (* Connect *) pack_eq_tac.
+  - (* Connack *) pack_eq_tac.
+  - (* WillTopicReq *) symmetry. apply app_nil_r.
+  - (* WillTopic *)
+    destruct topic as [|x t]; [symmetry; apply app_nil_r|].
+    split_wf. cbv zeta.
+    match goal with H : len (_ :: _) <= _ |- _ => rewrite len_cons in H end.
+    rewrite ?len_cons.
+    rewrite varpart_pos by (unfold u16; lia).
+    f_equal. f_equal. len_norm. unfold u16. lia.
+  - (* WillMsgReq *) symmetry. apply app_nil_r.
+  - (* WillMsg *) pack_eq_tac.
+  - (* Register *) pack_eq_tac.
+  - (* Regack *) pack_eq_tac.
+  - (* Publish *) pack_eq_tac.
+  - (* Puback *) pack_eq_tac.
+  - (* Pubcomp *) pack_eq_tac.
+  - (* Pubrec *) pack_eq_tac.
+  - (* Pubrel *) pack_eq_tac.
+  - (* Subscribe *)
+    apply andb_true_iff in Hwf. destruct Hwf as [Hwf Hsub].
+    apply wf_sub_cases in Hsub.
+    cbv zeta. fold (tail_sub tit tid name).
+    f_equal. f_equal. len_norm.
+    destruct Hsub as [[Htit [Hti [Hw [Hl Hp]]]]|[[Htit|Htit] [Hti Hnm]]]; subst;
+      unfold tail_sub, TIT_STRING, TIT_PREDEFINED, TIT_SHORT; cbn [N.eqb Pos.eqb orb];
+      [rewrite u16_small by lia|rewrite len_enc16w ..]; lia.
+  - (* Suback *) pack_eq_tac.
+  - (* Unsubscribe *)
+    apply andb_true_iff in Hwf. destruct Hwf as [Hwf Hsub].
+    apply wf_sub_cases in Hsub.
+    cbv zeta. fold (tail_sub tit tid name).
+    f_equal. f_equal. len_norm.
+    destruct Hsub as [[Htit [Hti [Hw [Hl Hp]]]]|[[Htit|Htit] [Hti Hnm]]]; subst;
+      unfold tail_sub, TIT_STRING, TIT_PREDEFINED, TIT_SHORT; cbn [N.eqb Pos.eqb orb];
+      [rewrite u16_small by lia|rewrite len_enc16w ..]; lia.
+  - (* Unsuback *) pack_eq_tac.
+  - (* Pingreq *) pack_eq_tac.
+  - (* Pingresp *) symmetry. apply app_nil_r.
+  - (* Disconnect *)
+    destruct (u16 dur =? 0); [symmetry; apply app_nil_r|reflexivity].
+  - (* WillTopicUpd *)
+    destruct topic as [|x t]; [symmetry; apply app_nil_r|].
+    split_wf. cbv zeta.
+    match goal with H : len (_ :: _) <= _ |- _ => rewrite len_cons in H end.
+    rewrite ?len_cons.
+    rewrite varpart_pos by (unfold u16; lia).
+    f_equal. f_equal. len_norm. unfold u16. lia.
+  - (* WillTopicResp *) pack_eq_tac.
+  - (* WillMsgUpd *) pack_eq_tac.
+  - (* WillMsgResp *) pack_eq_tac.
+Qed.
+
+Lemma tail_sub_string (ti : N) (nm : bytes) : tail_sub 0 ti nm = nm.
+Proof. reflexivity. Qed.
+Lemma tail_sub_predef (ti : N) (nm : bytes) : tail_sub 1 ti nm = enc16w ti.
+Proof. reflexivity. Qed.
+Lemma tail_sub_short (ti : N) (nm : bytes) : tail_sub 2 ti nm = enc16w ti.
+Proof. reflexivity. Qed.
+
+Lemma pbody_len (p : packet) : wf_pkt p = true -> len (pbody p) <= 7500.
+Proof.
+  intros Hwf. destruct_pkt p; cbn [wf_pkt] in Hwf; cbn [pbody];
+    try (split_wf; len_norm; lia).
+  - (* WillTopic *) destruct topic as [|x t]; split_wf; len_norm; [lia|].
+    match goal with H : len (_ :: _) <= _ |- _ => rewrite len_cons in H end. lia.
+  - (* Subscribe *)
+    apply andb_true_iff in Hwf. destruct Hwf as [Hwf Hsub]. apply wf_sub_cases in Hsub.
+    destruct Hsub as [[Htit [Hti [Hw [Hl Hp]]]]|[[Htit|Htit] [Hti Hnm]]]; subst;
+      rewrite ?tail_sub_string, ?tail_sub_predef, ?tail_sub_short; len_norm; lia.
+  - (* Unsubscribe *)
+    apply andb_true_iff in Hwf. destruct Hwf as [Hwf Hsub]. apply wf_sub_cases in Hsub.
+    destruct Hsub as [[Htit [Hti [Hw [Hl Hp]]]]|[[Htit|Htit] [Hti Hnm]]]; subst;
+      rewrite ?tail_sub_string, ?tail_sub_predef, ?tail_sub_short; len_norm; lia.
+  - (* Disconnect *) destruct (u16 dur =? 0); len_norm; lia.
+  - (* WillTopicUpd *) destruct topic as [|x t]; split_wf; len_norm; [lia|].
+    match goal with H : len (_ :: _) <= _ |- _ => rewrite len_cons in H end. lia.
+Qed.
+
+Ltac byte_bound :=
+  unfold u8, pub_flags, qos_bits, bN;
+  repeat match goal with |- context [if ?b then _ else _] => destruct b end;
+  lia.
+
+Ltac wfb :=
+  cbn [app];
+  repeat first [ apply wf_bytes_nil | apply enc16w_wf | assumption
+               | apply wf_bytes_app | apply wf_bytes_cons ];
+  try byte_bound.
+
+Lemma pbody_wf (p : packet) : wf_pkt p = true -> wf_bytes (pbody p).
+Proof.
+  intros Hwf. destruct_pkt p; cbn [wf_pkt] in Hwf; cbn [pbody];
+    try (split_wf; wfb; fail).
+  - (* WillTopic *) destruct topic as [|x t]; split_wf; wfb.
+  - (* Subscribe *)
+    apply andb_true_iff in Hwf. destruct Hwf as [Hwf Hsub]. apply wf_sub_cases in Hsub.
+    destruct Hsub as [[Htit [Hti [Hw [Hl Hp]]]]|[[Htit|Htit] [Hti Hnm]]]; subst;
+      rewrite ?tail_sub_string, ?tail_sub_predef, ?tail_sub_short; split_wf; wfb.
+  - (* Unsubscribe *)
+    apply andb_true_iff in Hwf. destruct Hwf as [Hwf Hsub]. apply wf_sub_cases in Hsub.
+    destruct Hsub as [[Htit [Hti [Hw [Hl Hp]]]]|[[Htit|Htit] [Hti Hnm]]]; subst;
+      rewrite ?tail_sub_string, ?tail_sub_predef, ?tail_sub_short; split_wf; wfb.
+  - (* Disconnect *) destruct (u16 dur =? 0); wfb.
+  - (* WillTopicUpd *) destruct topic as [|x t]; split_wf; wfb.
+Qed.
+
+(* ------------------------------------------------------------------ decoding a body *)
+
+Ltac dispatch :=
+  match goal with
+  | |- unpack_body _ ?b = _ =>
+    let x := fresh "buf" in
+    set (x := b);
+    lazy beta iota delta
+      [unpack_body N.eqb Pos.eqb
+       T_ADVERTISE T_SEARCHGW T_GWINFO T_AUTH T_CONNECT T_CONNACK T_WILLTOPICREQ T_WILLTOPIC
+       T_WILLMSGREQ T_WILLMSG T_REGISTER T_REGACK T_PUBLISH T_PUBACK T_PUBCOMP T_PUBREC T_PUBREL
+       T_SUBSCRIBE T_SUBACK T_UNSUBSCRIBE T_UNSUBACK T_PINGREQ T_PINGRESP T_DISCONNECT
+       T_WILLTOPICUPD T_WILLTOPICRESP T_WILLMSGUPD T_WILLMSGRESP];
+    subst x
+  end.
+
+Ltac run :=
+  cbv beta zeta delta
+    [unpack_advertise unpack_searchgw unpack_gwinfo unpack_connect unpack_connack
+     unpack_willtopicreq unpack_willtopic unpack_willmsgreq unpack_willmsg unpack_register
+     unpack_regack unpack_publish unpack_puback unpack_pubcomp unpack_pubrec unpack_pubrel
+     unpack_subscribe unpack_suback unpack_unsubscribe unpack_unsuback unpack_pingreq
+     unpack_pingresp unpack_disconnect unpack_willtopicupd unpack_willtopicresp
+     unpack_willmsgupd unpack_willmsgresp enc16w];
+  cbn [app lenb length Nat.ltb Nat.leb Nat.eqb negb obind idx get16 nth_error slice_from skipn].
+
+(* field-by-field equality of the decoded packet *)
+Ltac fld :=
+  unfold u8, be16, bit, pub_flags, qos_bits, bN;
+  match goal with
+  | |- (_ =? _) = true => apply N.eqb_eq
+  | |- (_ =? _) = false => apply N.eqb_neq
+  | |- _ => idtac
+  end; lia.
+
+Ltac fields := f_equal; f_equal; fld.
+
+Lemma unpack_auth_ok (r : N) (m d : bytes) :
+  len m <= 255 -> unpack_auth (r :: len m :: m ++ d) = Ok (Auth r m d).
+Proof.
+  intros Hm. unfold unpack_auth, lenb.
+  assert (El : N.to_nat (len m) = length m) by (unfold len; apply Nat2N.id).
+  set (buf := r :: len m :: m ++ d).
+  assert (Hlen : length buf = (2 + length m + length d)%nat)
+    by (subst buf; cbn [length]; rewrite app_length; lia).
+  destruct (Nat.ltb_spec (length buf) 2) as [Hc|_]; [lia|].
+  change (idx buf 0 PsBodySlice) with (Ok r).
+  change (idx buf 1 PsBodySlice) with (Ok (len m)).
+  cbn [obind]. rewrite El.
+  destruct (Nat.ltb_spec (length buf) (2 + length m)) as [Hc|_]; [lia|].
+  unfold slice, slice_from.
+  destruct (Nat.leb_spec 2 (2 + length m)) as [_|Hc]; [|lia].
+  destruct (Nat.leb_spec (2 + length m) (length buf)) as [_|Hc]; [|lia].
+  cbn [andb obind].
+  replace (2 + length m - 2)%nat with (length m + 0)%nat by lia.
+  subst buf.
+  change (skipn 2 (r :: len m :: m ++ d)) with (m ++ d).
+  change (skipn (2 + length m) (r :: len m :: m ++ d)) with (skipn (length m) (m ++ d)).
+  rewrite firstn_app_2. cbn [firstn]. rewrite app_nil_r.
+  rewrite skipn_app, skipn_all, Nat.sub_diag. cbn [skipn app].
+  reflexivity.
+Qed.
+
+Ltac nonempty :=
+  match goal with
+  | H : 0 < len ?c |- _ =>
+    let x := fresh "x" in let c' := fresh "tl" in let E := fresh "E" in
+    apply len_pos_cons in H; destruct H as [x [c' E]]; subst c
+  end.
+
+Ltac tit_consts :=
+  unfold TIT_STRING, TIT_PREDEFINED, TIT_SHORT; cbn [N.eqb Pos.eqb orb negb].
+
+Lemma unpack_pbody (p : packet) : wf_pkt p = true -> unpack_body (ptype p) (pbody p) = Ok p.
+Proof.
+  intros Hwf. destruct_pkt p; cbn [wf_pkt] in Hwf; cbn [pbody ptype].
+  - (* Advertise *) split_wf. dispatch. run. fields.
+  - (* SearchGw *) split_wf. dispatch. run. fields.
+  - (* GwInfo *) split_wf. dispatch. run. fields.
+  - (* Auth *)
+    split_wf. dispatch. cbn [app].
+    rewrite (u8_small (len method)) by lia.
+    rewrite unpack_auth_ok by assumption. fields.
+  - (* Connect *)
+    split_wf. subst proto. nonempty. change (u8 1) with 1.
+    dispatch. run. cbn [N.eqb Pos.eqb negb obind].
+    destruct will, clean; fields.
+  - (* Connack *) split_wf. dispatch. run. fields.
+  - (* WillTopicReq *) reflexivity.
+  - (* WillTopic *)
+    destruct topic as [|x t]; split_wf.
+    + subst qos retain. reflexivity.
+    + dispatch. run. destruct retain; fields.
+  - (* WillMsgReq *) reflexivity.
+  - (* WillMsg *) reflexivity.
+  - (* Register *) split_wf. nonempty. dispatch. run. fields.
+  - (* Regack *) split_wf. dispatch. run. fields.
+  - (* Publish *) split_wf. dispatch. run. destruct dup, retain; fields.
+  - (* Puback *) split_wf. dispatch. run. fields.
+  - (* Pubcomp *) split_wf. dispatch. run. fields.
+  - (* Pubrec *) split_wf. dispatch. run. fields.
+  - (* Pubrel *) split_wf. dispatch. run. fields.
+  - (* Subscribe *)
+    apply andb_true_iff in Hwf. destruct Hwf as [Hwf Hsub]. apply wf_sub_cases in Hsub.
+    split_wf.
+    destruct Hsub as [[Htit [Hti [Hw [Hl Hp]]]]|[[Htit|Htit] [Hti Hnm]]]; subst.
+    + rewrite tail_sub_string. nonempty. dispatch. run.
+      match goal with
+      | |- context [?f mod 4 =? TIT_STRING] =>
+        replace (f mod 4) with 0 by (destruct dup; fld)
+      end.
+      tit_consts. run. destruct dup; fields.
+    + rewrite tail_sub_predef. dispatch. run.
+      match goal with
+      | |- context [?f mod 4 =? TIT_STRING] =>
+        replace (f mod 4) with 1 by (destruct dup; fld)
+      end.
+      tit_consts. run. destruct dup; fields.
+    + rewrite tail_sub_short. dispatch. run.
+      match goal with
+      | |- context [?f mod 4 =? TIT_STRING] =>
+        replace (f mod 4) with 2 by (destruct dup; fld)
+      end.
+      tit_consts. run. destruct dup; fields.
+  - (* Suback *) split_wf. dispatch. run. fields.
+  - (* Unsubscribe *)
+    apply andb_true_iff in Hwf. destruct Hwf as [Hwf Hsub]. apply wf_sub_cases in Hsub.
+    split_wf.
+    destruct Hsub as [[Htit [Hti [Hw [Hl Hp]]]]|[[Htit|Htit] [Hti Hnm]]]; subst.
+    + rewrite tail_sub_string. nonempty. dispatch. run.
+      change (0 mod 4 mod 4) with 0.
+      tit_consts. run. fields.
+    + rewrite tail_sub_predef. dispatch. run.
+      change (1 mod 4 mod 4) with 1.
+      tit_consts. run. fields.
+    + rewrite tail_sub_short. dispatch. run.
+      change (2 mod 4 mod 4) with 2.
+      tit_consts. run. fields.
+  - (* Unsuback *) split_wf. dispatch. run. fields.
+  - (* Pingreq *) reflexivity.
+  - (* Pingresp *) reflexivity.
+  - (* Disconnect *)
+    split_wf. destruct (N.eqb_spec (u16 dur) 0) as [E|E].
+    + rewrite u16_small in E by assumption. subst dur. reflexivity.
+    + dispatch. run. fields.
+  - (* WillTopicUpd *)
+    destruct topic as [|x t]; split_wf.
+    + subst qos retain. reflexivity.
+    + dispatch. run. destruct retain; fields.
+  - (* WillTopicResp *) split_wf. dispatch. run. fields.
+  - (* WillMsgUpd *) reflexivity.
+  - (* WillMsgResp *) split_wf. dispatch. run. fields.
+Qed.
+
+Lemma ptype_byte (p : packet) : ptype p < 256.
+Proof. destruct p; cbn [ptype]; reflexivity. Qed.
+
+Lemma ptype_known (p : packet) : known_type (ptype p) = true.
+Proof. destruct p; reflexivity. Qed.
+
+(* ------------------------------------------------------------------ C21 *)
+
+(* encode/decode round trip *)
+Lemma read_pack_roundtrip : forall p : packet, wf_pkt p = true -> read_dgram (pack p) = Ok p.
+Proof.
+  intros p Hwf. rewrite (pack_eq p Hwf).
+  rewrite framed_read; [apply unpack_pbody, Hwf|apply ptype_byte|apply pbody_len, Hwf|apply ptype_known].
+Qed.
+
+(* the encoded length field equals the datagram size *)
+Lemma pack_announced_len : forall p : packet, wf_pkt p = true -> announced_len (pack p) = Some (len (pack p)).
+Proof.
+  intros p Hwf. rewrite (pack_eq p Hwf).
+  apply framed_announced; [apply ptype_byte|apply pbody_len, Hwf].
+Qed.
+
+(* the one-byte length form is used exactly when the size is at most 255 *)
+Lemma pack_short_form : forall p : packet, wf_pkt p = true -> short_form (pack p) = (len (pack p) <=? 255).
+Proof.
+  intros p Hwf. rewrite (pack_eq p Hwf).
+  apply framed_short_form; [apply ptype_byte|apply pbody_len, Hwf].
+Qed.
+
+(* every encoded datagram fits the transport maximum and consists of bytes *)
+Lemma pack_size : forall p : packet, wf_pkt p = true -> len (pack p) <= MaxPacketLen.
+Proof.
+  intros p Hwf. rewrite (pack_eq p Hwf).
+  apply framed_size; [apply ptype_byte|apply pbody_len, Hwf].
+Qed.
+
+Lemma pack_wf_bytes : forall p : packet, wf_pkt p = true -> wf_bytes (pack p).
+Proof.
+  intros p Hwf. rewrite (pack_eq p Hwf).
+  apply framed_wf; [apply ptype_byte|apply pbody_len, Hwf|apply pbody_wf, Hwf].
+Qed.
+
+(* the extracted checker accepts the model's own behaviour *)
+Lemma chk_C21_sound : forall p : packet,
+  chk_C21 p (pack p) (match read_dgram (pack p) with Ok q => Some q | _ => None end) = [].
+Proof.
+  intros p. unfold chk_C21. destruct (wf_pkt p) eqn:Hwf; cbn [negb]; [|reflexivity].
+  rewrite (read_pack_roundtrip p Hwf), pkt_eqb_refl.
+  rewrite (pack_announced_len p Hwf), N.eqb_refl.
+  rewrite (pack_short_form p Hwf), Bool.eqb_reflx.
+  reflexivity.
+Qed.
+
+Print Assumptions read_pack_roundtrip.
+Print Assumptions chk_C21_sound.
